@@ -84,3 +84,40 @@ def unparse(node, n=120):
         return " ".join(ast.unparse(node).split())[:n]
     except Exception:
         return type(node).__name__
+
+
+def delegate_body(repo, fn, body, src):
+    """If a branch body merely delegates to a module-level helper of the same module -
+    `return helper(src, ...)` or `X = helper(src, ...)` - return (helper FunctionInfo, its statements, the helper's name
+    for src); otherwise (fn, body, src)."""
+    for st in body[:1]:
+        call = None
+        if isinstance(st, ast.Return) and isinstance(st.value, ast.Call):
+            call = st.value
+        elif isinstance(st, ast.Assign) and isinstance(st.value, ast.Call):
+            call = st.value
+        if call is not None and isinstance(call.func, ast.Name):
+            tgt = repo.resolve_name(fn, fn.module, call.func.id)
+            if isinstance(tgt, FunctionInfo) and tgt.module is fn.module and tgt.cls is None and not tgt.name.startswith("empty_"):
+                for i, a in enumerate(call.args):
+                    if isinstance(a, ast.Name) and a.id == src and i < len(tgt.params):
+                        stmts = [s for s in tgt.node.body if not (isinstance(s, ast.Expr) and isinstance(s.value, ast.Constant))]
+                        return tgt, stmts, tgt.params[i]
+    return fn, body, src
+
+
+def with_module_helpers(repo, fn, depth=3):
+    """fn plus the same-module functions it calls by name, transitively (helper extraction keeps rules whole)."""
+    out, seen, todo = [fn], {fn.fq}, [(fn, 0)]
+    while todo:
+        f, d = todo.pop()
+        if d >= depth:
+            continue
+        for c in ast.walk(f.node):
+            if isinstance(c, ast.Call) and isinstance(c.func, ast.Name):
+                tgt = repo.resolve_name(f, f.module, c.func.id)
+                if isinstance(tgt, FunctionInfo) and tgt.module is fn.module and tgt.cls is None and tgt.fq not in seen and tgt.parent is None:
+                    seen.add(tgt.fq)
+                    out.append(tgt)
+                    todo.append((tgt, d + 1))
+    return out
